@@ -16,11 +16,83 @@ fn jarr(v: &[String]) -> String {
     format!("[{}]", v.iter().map(|s| jstr(s)).collect::<Vec<_>>().join(","))
 }
 
+/// The statement of C15 (and the no-one-stuck part of C14) evaluated on one real history, with no model:
+/// (1) a deadlock panic of actor a on its ask to b is justified only if a = b or, at that moment, a chain of
+///     unanswered in-flight asks leads from b to a;  (2) in a program whose hooks only ask higher-numbered
+///     peers no deadlock panic is ever justified;  (3) whenever no ask is in flight the wait-for map is empty.
+fn history_oracles(trace: &[String], acyclic: bool) -> Vec<String> {
+    let mut out = vec![];
+    // in-flight, unanswered: (caller, callee, mid)
+    let mut open: Vec<(usize, usize, u64)> = vec![];
+    // started and not yet returned to the caller (answered or not)
+    let mut pending: Vec<(usize, u64)> = vec![];
+    let mut last_ask: std::collections::BTreeMap<usize, (usize, u64, Vec<(usize, usize, u64)>)> = Default::default();
+    let num = |s: &str| s.parse::<u64>().unwrap_or(0);
+    for l in trace {
+        let ws: Vec<&str> = l.split_whitespace().collect();
+        match ws.as_slice() {
+            ["N", "askStart", a, b, mid] => {
+                let (a, b, mid) = (num(a) as usize, num(b) as usize, num(mid));
+                last_ask.insert(a, (b, mid, open.clone()));
+                open.push((a, b, mid));
+                pending.push((a, mid));
+            }
+            ["N", "hEnd", _b, mid, _out] => {
+                let mid = num(mid);
+                // ok: the reply is sent; panic: the callee dies and the ask is lost - either way the caller no longer waits for it
+                open.retain(|e| e.2 != mid);
+            }
+            ["N", "askRet", _a, mid, _] => {
+                let mid = num(mid);
+                open.retain(|e| e.2 != mid);
+                pending.retain(|e| e.1 != mid);
+            }
+            ["N", "joined", a, rest @ ..] => {
+                let a = num(a) as usize;
+                if rest.first() == Some(&"deadlock") {
+                    if let Some((b, mid, before)) = last_ask.get(&a) {
+                        let mut reach = vec![*b];
+                        let mut changed = true;
+                        while changed {
+                            changed = false;
+                            for e in before {
+                                if reach.contains(&e.0) && !reach.contains(&e.1) {
+                                    reach.push(e.1);
+                                    changed = true;
+                                }
+                            }
+                        }
+                        let justified = a == *b || before.iter().any(|e| reach.contains(&e.0) && e.1 == a);
+                        if acyclic {
+                            out.push(format!("actor {a} panicked with a deadlock report on its ask {mid} to {b} although no chain of in-flight asks can exist: hooks of this program only ask higher-numbered peers"));
+                        } else if !justified {
+                            out.push(format!("actor {a} panicked with a deadlock report on its ask {mid} to {b} although no chain of unanswered in-flight asks led from {b} to {a} (open asks then: {before:?})"));
+                        }
+                    }
+                }
+                // a dead actor's asks are over; asks to it are lost
+                open.retain(|e| e.0 != a && e.1 != a);
+                pending.retain(|e| e.0 != a);
+            }
+            ["N", "graph", g] => {
+                if pending.is_empty() && *g != "-" {
+                    out.push(format!("wait-for graph: {g} although every ask has finished (no ask is in flight)"));
+                }
+            }
+            ["N", "poisoned", "true"] => out.push("the wait-for lock is poisoned".into()),
+            _ => {}
+        }
+    }
+    out.truncate(3);
+    out
+}
+
 fn main() {
     harness::quiet_panics();
     let args: Vec<String> = std::env::args().collect();
     let (mut driver, mut seed, mut n, mut corpus, mut report, mut replay) =
         ("/verif/lean/.lake/build/bin/driver".to_string(), 1u64, 100usize, None, None, None);
+    let mut joins = 0usize;
     let mut i = 1;
     while i < args.len() {
         match args[i].as_str() {
@@ -30,6 +102,7 @@ fn main() {
             "--corpus" => { corpus = Some(args[i + 1].clone()); i += 1 }
             "--report" => { report = Some(args[i + 1].clone()); i += 1 }
             "--replay" => { replay = Some(args[i + 1].clone()); i += 1 }
+            "--joins" => { joins = args[i + 1].parse().unwrap(); i += 1 }
             o => panic!("unknown argument {o}"),
         }
         i += 1;
@@ -96,6 +169,36 @@ fn main() {
             summary = l.to_string();
         }
     }
+    // programs whose hooks await several asks at once: outside the sequential protocol model, judged by
+    // the property's own oracles on the real history
+    let mut oracle_runs: Vec<(String, Vec<String>, Vec<String>)> = vec![];
+    let mut join_steps = 0u64;
+    if replay.is_none() {
+        for k in 0..joins {
+            let sd = seed.wrapping_mul(7_000_003).wrapping_add(k as u64);
+            let mut g = if k % 2 == 0 { NetGen::new_acyclic(sd) } else { NetGen::new(sd) };
+            g.joins = true;
+            let acyclic = g.acyclic;
+            let out = run_with(|n, w| g.next(n, w));
+            join_steps += out.script.iter().map(|l| l.matches("j(").count() as u64).sum::<u64>();
+            let name = format!("netjoin{}:{sd}", if acyclic { "-acyclic" } else { "" });
+            for f in history_oracles(&out.trace, acyclic) {
+                fails.push(format!("NETFAIL {} {f}", name));
+            }
+            oracle_runs.push((name, out.script, out.trace));
+        }
+    } else if let Some((name, script, trace)) = runs.first() {
+        if script.iter().any(|l| l.contains("j(")) {
+            // a replayed program with joins: oracles only (the model's verdict does not apply)
+            fails.retain(|f| !f.contains(name.as_str()));
+            diffs.clear();
+            for f in history_oracles(trace, false) {
+                fails.push(format!("NETFAIL {} {f}", name.replace(' ', "_")));
+            }
+        }
+    }
+    let n_model_runs = runs.len();
+    runs.extend(oracle_runs);
     let mut ev_hist: std::collections::BTreeMap<String, u64> = Default::default();
     let (mut deadlocks, mut with_timeout, mut with_panic) = (0u64, 0u64, 0u64);
     for (_, _, trace) in &runs {
@@ -131,9 +234,11 @@ fn main() {
         .collect();
     let sample = runs.iter().find(|(_, _, t)| t.iter().any(|l| l.contains("deadlock"))).or(runs.first());
     let rep = format!(
-        "{{\"diffs\":{},\"histories\":{},\"summary\":{},\"fails\":{},\"failing\":[{}],\"deadlocks\":{},\"timeouts\":{},\"panics\":{},\"events\":{{{}}},\"sample\":{{\"script\":{},\"trace\":{}}}}}",
+        "{{\"diffs\":{},\"oracle_only_histories_with_concurrent_asks\":{},\"join_steps\":{},\"histories\":{},\"summary\":{},\"fails\":{},\"failing\":[{}],\"deadlocks\":{},\"timeouts\":{},\"panics\":{},\"events\":{{{}}},\"sample\":{{\"script\":{},\"trace\":{}}}}}",
         jarr(&diffs.iter().take(5).cloned().collect::<Vec<_>>()),
-        runs.len(),
+        runs.len() - n_model_runs,
+        join_steps,
+        n_model_runs,
         jstr(&summary),
         fails.len(),
         failing.join(","),
